@@ -96,6 +96,9 @@ def statements(qc):
         }
         if qc in (P.Query, PostgreSQLQuery, SQLLiteQuery):
             out["upsert"] = lambda: qc.into(t).columns("a", "b").insert(1, 2).on_conflict(t.a).do_update(t.b, t.b + 1).where(t.c == 3)
+            # both predicates of an upsert: the conflict target's and DO UPDATE's
+            out["upsert-both-predicates"] = lambda: (qc.into(t).columns("a", "b").insert(1, 2).on_conflict(t.a).where(t.d > 0).do_update(t.b, t.b + x.e)
+                                                     .do_update(t.f, fn.Coalesce(t.f, 0)).where(t.c == 3).where(t.g < x.g))
         if qc is PostgreSQLQuery:
             out["returning"] = lambda: qc.update(t).set(t.a, 1).where(t.b == 2).returning(t.a, t.b.as_("r"))
             out["distinct-on"] = lambda: qc.from_(t).select(t.a).distinct_on(t.b, x.c).join(x).on(t.a == x.a)
